@@ -4,8 +4,8 @@
     source on every run (Gen/C19Threads.v), in the thread/memory model of Model/C19_Prog.v:
     a scheduler step lets ANY unfinished iteration perform its next single load or store. *)
 From Coq Require Import ZArith List Bool String.
-Require Import SPP.Model.C19_Prog SPP.Gen.C19Threads SPP.Model.C19_Footprints.
-Require Import SPP.Proofs.C19_sched SPP.Proofs.C19_kernels SPP.Proofs.C19_site SPP.Proofs.C19_seq.
+Require Import SPP.Base.Rt SPP.Model.C19_Prog SPP.Gen.C19Threads SPP.Model.C19_Footprints.
+Require Import SPP.Proofs.C19_sched SPP.Proofs.C19_kernels SPP.Proofs.C19_site SPP.Proofs.C19_seq SPP.Proofs.C19_seq2.
 Import ListNotations.
 Open Scope Z_scope.
 
@@ -173,6 +173,97 @@ Theorem C19_invert_freq_seq_is_pyfunc : forall nchans nsamps m k,
   SPP.Gen.Kernels.invert_freq_run (arr_of m invert_freq_ID_outarray) (arr_of m invert_freq_ID_array) nchans nsamps k.
 Proof. exact invert_freq_seq. Qed.
 Print Assumptions C19_invert_freq_seq_is_pyfunc.
+
+Theorem C19_remove_zerodm_seq_is_pyfunc : forall nchans nsamps m k,
+  seq_run (remove_zerodm_threads nchans nsamps) m (remove_zerodm_ID_outarray, k) =
+  SPP.Gen.Kernels.remove_zerodm_run (arr_of m remove_zerodm_ID_inarray) (arr_of m remove_zerodm_ID_outarray)
+     (arr_of m remove_zerodm_ID_bpass) (arr_of m remove_zerodm_ID_chanwts) nchans nsamps k.
+Proof. exact remove_zerodm_seq. Qed.
+Print Assumptions C19_remove_zerodm_seq_is_pyfunc.
+
+(** the parallel decimators are compiled from the Python definitions of downsample_1d_mean / downsample_2d_mean_flat
+    (njit(f.py_func, parallel=True, ...)): their sequential definition is the functional term of that function.  The fresh
+    result array (np.empty) starts with whatever the memory holds there.  True division is ONE uninterpreted [divcast] on both
+    sides: see C19_decimation_divides_like_its_definition below for why that is sound (FASTMATH_EXACT_DIV: no arcp). *)
+Theorem C19_downsample_1d_mean_parallel_seq_is_pyfunc : forall divcast array_size factor m k,
+  seq_run (downsample_1d_mean_parallel_threads divcast array_size factor) m (downsample_1d_mean_parallel_ID_result, k) =
+  SPP.Gen.Kernels.downsample_1d_mean_run divcast array_size (arr_of m downsample_1d_mean_parallel_ID_result)
+     (arr_of m downsample_1d_mean_parallel_ID_array) factor k.
+Proof. exact downsample_1d_seq. Qed.
+Print Assumptions C19_downsample_1d_mean_parallel_seq_is_pyfunc.
+
+Theorem C19_downsample_2d_mean_parallel_seq_is_pyfunc : forall divcast factor1 factor2 dim1 dim2 m k,
+  seq_run (downsample_2d_mean_parallel_threads divcast factor1 factor2 dim1 dim2) m (downsample_2d_mean_parallel_ID_result, k) =
+  SPP.Gen.Kernels.downsample_2d_mean_flat_run divcast (arr_of m downsample_2d_mean_parallel_ID_result)
+     (arr_of m downsample_2d_mean_parallel_ID_array) factor1 factor2 dim1 dim2 k.
+Proof. exact downsample_2d_seq. Qed.
+Print Assumptions C19_downsample_2d_mean_parallel_seq_is_pyfunc.
+
+(** ... hence EVERY complete schedule of the parallel loop leaves, in every output element, the value the kernel's Python
+    definition computes (schedule independence composed with the three statements above) *)
+Theorem C19_remove_zerodm_any_schedule_is_pyfunc : forall nchans nsamps m ps' m' k,
+  steps (remove_zerodm_threads nchans nsamps, m) (ps', m') -> all_done ps' ->
+  m' (remove_zerodm_ID_outarray, k) =
+  SPP.Gen.Kernels.remove_zerodm_run (arr_of m remove_zerodm_ID_inarray) (arr_of m remove_zerodm_ID_outarray)
+     (arr_of m remove_zerodm_ID_bpass) (arr_of m remove_zerodm_ID_chanwts) nchans nsamps k.
+Proof. exact remove_zerodm_any_schedule. Qed.
+Print Assumptions C19_remove_zerodm_any_schedule_is_pyfunc.
+
+Theorem C19_downsample_1d_mean_parallel_any_schedule_is_pyfunc : forall divcast array_size factor m ps' m' k,
+  steps (downsample_1d_mean_parallel_threads divcast array_size factor, m) (ps', m') -> all_done ps' ->
+  m' (downsample_1d_mean_parallel_ID_result, k) =
+  SPP.Gen.Kernels.downsample_1d_mean_run divcast array_size (arr_of m downsample_1d_mean_parallel_ID_result)
+     (arr_of m downsample_1d_mean_parallel_ID_array) factor k.
+Proof. exact downsample_1d_any_schedule. Qed.
+Print Assumptions C19_downsample_1d_mean_parallel_any_schedule_is_pyfunc.
+
+Theorem C19_downsample_2d_mean_parallel_any_schedule_is_pyfunc : forall divcast factor1 factor2 dim1 dim2 m ps' m' k,
+  steps (downsample_2d_mean_parallel_threads divcast factor1 factor2 dim1 dim2, m) (ps', m') -> all_done ps' ->
+  m' (downsample_2d_mean_parallel_ID_result, k) =
+  SPP.Gen.Kernels.downsample_2d_mean_flat_run divcast (arr_of m downsample_2d_mean_parallel_ID_result)
+     (arr_of m downsample_2d_mean_parallel_ID_array) factor1 factor2 dim1 dim2 k.
+Proof. exact downsample_2d_any_schedule. Qed.
+Print Assumptions C19_downsample_2d_mean_parallel_any_schedule_is_pyfunc.
+
+(** non-vacuity of the three: an interleaved complete schedule (thread 1 first, then alternating) of a call with two
+    non-trivial iterations exists -- [steps] and [all_done] hold for it -- and ends in the values of the functional kernel
+    (2 channels x 2 samples; 5 samples by 2; 4 x 4 by 2 x 2, with divcast := Z.div) *)
+Definition alt_schedule : list nat := [1; 0; 1; 0; 1; 0; 1; 0; 1; 0; 1; 0; 1; 0; 1; 0; 1; 0; 1; 0; 1; 0; 1; 0]%nat.
+
+Example C19_remove_zerodm_example :
+  let ts := remove_zerodm_threads 2 2 in
+  let m := mem_of [(remove_zerodm_ID_inarray, [1; 2; 3; 4]); (remove_zerodm_ID_outarray, [9; 9; 9; 9]);
+                   (remove_zerodm_ID_bpass, [10; 20]); (remove_zerodm_ID_chanwts, [1; 2])] in
+  let c := sched_run alt_schedule (ts, m) in
+  steps (ts, m) c /\ all_done (fst c) /\ forallb is_done ts = false /\
+  dump (snd c) remove_zerodm_ID_outarray 4 = [8; 16; 6; 10] /\
+  to_list 4 (SPP.Gen.Kernels.remove_zerodm_run (arr_of m remove_zerodm_ID_inarray) (arr_of m remove_zerodm_ID_outarray)
+               (arr_of m remove_zerodm_ID_bpass) (arr_of m remove_zerodm_ID_chanwts) 2 2) = [8; 16; 6; 10].
+Proof. cbv zeta. split; [apply sched_run_steps|]. split; [apply is_done_all; vm_compute; reflexivity|].
+  vm_compute. repeat split; reflexivity. Qed.
+
+Example C19_downsample_1d_example :
+  let ts := downsample_1d_mean_parallel_threads Z.div 5 2 in
+  let m := mem_of [(downsample_1d_mean_parallel_ID_array, [2; 4; 6; 8; 5]); (downsample_1d_mean_parallel_ID_result, [77; 77])] in
+  let c := sched_run alt_schedule (ts, m) in
+  steps (ts, m) c /\ all_done (fst c) /\ forallb is_done ts = false /\
+  dump (snd c) downsample_1d_mean_parallel_ID_result 2 = [3; 7] /\
+  to_list 2 (SPP.Gen.Kernels.downsample_1d_mean_run Z.div 5 (arr_of m downsample_1d_mean_parallel_ID_result)
+               (arr_of m downsample_1d_mean_parallel_ID_array) 2) = [3; 7].
+Proof. cbv zeta. split; [apply sched_run_steps|]. split; [apply is_done_all; vm_compute; reflexivity|].
+  vm_compute. repeat split; reflexivity. Qed.
+
+Example C19_downsample_2d_example :
+  let ts := downsample_2d_mean_parallel_threads Z.div 2 2 4 4 in
+  let m := mem_of [(downsample_2d_mean_parallel_ID_array, [1; 2; 3; 4; 5; 6; 7; 8; 9; 10; 11; 12; 13; 14; 15; 16]);
+                   (downsample_2d_mean_parallel_ID_result, [77; 77; 77; 77])] in
+  let c := sched_run alt_schedule (ts, m) in
+  steps (ts, m) c /\ all_done (fst c) /\ forallb is_done ts = false /\
+  dump (snd c) downsample_2d_mean_parallel_ID_result 4 = [3; 5; 11; 13] /\
+  to_list 4 (SPP.Gen.Kernels.downsample_2d_mean_flat_run Z.div (arr_of m downsample_2d_mean_parallel_ID_result)
+               (arr_of m downsample_2d_mean_parallel_ID_array) 2 2 4 4) = [3; 5; 11; 13].
+Proof. cbv zeta. split; [apply sched_run_steps|]. split; [apply is_done_all; vm_compute; reflexivity|].
+  vm_compute. repeat split; reflexivity. Qed.
 
 (** the set of kernels compiled parallel=True and their parallel loop variables are the ones proved about *)
 Example C19_kernel_set : parallel_kernels =
